@@ -1,0 +1,233 @@
+// SPDX-License-Identifier: Apache-2.0
+//! Verification hooks (cargo feature `echo_verif`, off by default).
+//!
+//! Thin, additive wrappers that let an external property-based-testing harness
+//! reach crate-private seams deterministically: scripted worker schedules for the
+//! work queue, the production delta merge, raw scheduler keys, the state diff,
+//! the columnar accumulator root and the footprint guard's write attribution.
+//!
+//! Nothing here changes behaviour when the feature is off, and with the feature
+//! on nothing changes unless a hook is explicitly used.
+
+use std::cell::RefCell;
+
+use crate::attachment::AttachmentKey;
+use crate::engine_impl::Engine;
+use crate::footprint::Footprint;
+use crate::graph::GraphStore;
+use crate::ident::{CompactRuleId, EdgeId, Hash, NodeId, NodeKey, WarpId};
+use crate::parallel::WorkerResult;
+use crate::receipt::TickReceipt;
+use crate::scheduler::{PendingRewrite, RewritePhase, SchedulerKind};
+use crate::tick_delta::{OpOrigin, TickDelta};
+use crate::tick_patch::WarpOp;
+use crate::tx::TxId;
+use crate::warp_state::WarpState;
+
+/// A scripted schedule: for each worker, the ordered list of work-unit indices it claims.
+pub type WorkerScript = Vec<Vec<usize>>;
+
+thread_local! {
+    static SCRIPT: RefCell<Option<WorkerScript>> = const { RefCell::new(None) };
+    static LAST_UNITS: RefCell<Vec<(WarpId, Vec<NodeId>)>> = const { RefCell::new(Vec::new()) };
+}
+
+/// Installs (or clears) the scripted schedule used by the calling thread's next commits.
+///
+/// While a script is installed, `execute_work_queue` on this thread runs the given
+/// assignment sequentially (one private delta per scripted worker, per-worker unit order as
+/// given) instead of spawning threads. Units not named by the script are appended to worker 0.
+pub fn set_worker_script(script: Option<WorkerScript>) {
+    SCRIPT.with(|s| *s.borrow_mut() = script);
+}
+
+/// Returns the `(warp, scopes)` structure of the work units of the most recent work-queue run
+/// on this thread.
+#[must_use]
+pub fn last_work_units() -> Vec<(WarpId, Vec<NodeId>)> {
+    LAST_UNITS.with(|u| u.borrow().clone())
+}
+
+pub(crate) fn record_units(units: &[crate::parallel::WorkUnit]) {
+    LAST_UNITS.with(|u| {
+        *u.borrow_mut() = units
+            .iter()
+            .map(|unit| (unit.warp_id, unit.items.iter().map(|i| i.scope).collect()))
+            .collect();
+    });
+}
+
+pub(crate) fn current_script() -> Option<WorkerScript> {
+    SCRIPT.with(|s| s.borrow().clone())
+}
+
+/// Runs the production merge (`merge_parallel_deltas`) over per-worker deltas.
+///
+/// # Errors
+/// Returns the engine error rendered as a string when the merge rejects the deltas.
+pub fn merge_worker_deltas(deltas: Vec<TickDelta>) -> Result<Vec<WarpOp>, String> {
+    let results = deltas.into_iter().map(WorkerResult::Success).collect();
+    crate::engine_impl::echo_verif_merge(results).map_err(|e| format!("{e:?}"))
+}
+
+/// Crate-private state diff, exposed for arbitrary `(before, after)` pairs.
+#[must_use]
+pub fn diff_state(before: &WarpState, after: &WarpState) -> Vec<WarpOp> {
+    crate::tick_patch::diff_state(before, after)
+}
+
+/// State root computed by the columnar accumulator for `state`.
+#[must_use]
+pub fn accumulator_root(state: &WarpState, root: &NodeKey) -> Hash {
+    let acc = crate::snapshot_accum::SnapshotAccumulator::from_warp_state(state);
+    acc.build(root, [0u8; 32], 0).state_root
+}
+
+/// State root computed by the columnar accumulator after applying `ops` to `state`.
+#[must_use]
+pub fn accumulator_root_after(state: &WarpState, ops: Vec<WarpOp>, root: &NodeKey) -> Hash {
+    let mut acc = crate::snapshot_accum::SnapshotAccumulator::from_warp_state(state);
+    acc.apply_ops(ops);
+    acc.build(root, [0u8; 32], 0).state_root
+}
+
+/// Canonical state root of the store-based implementation for an arbitrary state.
+#[must_use]
+pub fn store_state_root(state: &WarpState, root: &NodeKey) -> Hash {
+    crate::snapshot::compute_state_root(state, root)
+}
+
+/// Write targets attributed to `op` by the footprint guard.
+#[derive(Debug, Clone, PartialEq, Eq)]
+pub struct AttributedTargets {
+    /// Nodes attributed as written.
+    pub nodes: Vec<NodeId>,
+    /// Edges attributed as written.
+    pub edges: Vec<EdgeId>,
+    /// Attachment slots attributed as written.
+    pub attachments: Vec<AttachmentKey>,
+    /// Whether the op is an instance-level op.
+    pub is_instance_op: bool,
+    /// Instance the op targets.
+    pub op_warp: Option<WarpId>,
+}
+
+/// Returns the guard's write attribution for `op`.
+#[cfg(any(debug_assertions, feature = "footprint_enforce_release"))]
+#[cfg(not(feature = "unsafe_graph"))]
+#[must_use]
+pub fn op_write_targets(op: &WarpOp) -> AttributedTargets {
+    let t = crate::footprint_guard::op_write_targets(op);
+    AttributedTargets {
+        nodes: t.nodes,
+        edges: t.edges,
+        attachments: t.attachments,
+        is_instance_op: t.is_instance_op,
+        op_warp: t.op_warp,
+    }
+}
+
+/// A raw scheduler candidate with an arbitrary sort key and footprint.
+#[derive(Debug, Clone)]
+pub struct RawCandidate {
+    /// First component of the canonical sort key.
+    pub scope_hash: Hash,
+    /// Rule family id (second component for the legacy scheduler).
+    pub rule_id: Hash,
+    /// Compact rule id (second component for the radix scheduler).
+    pub compact_rule: u32,
+    /// Scope recorded in the receipt.
+    pub scope: NodeKey,
+    /// Declared footprint.
+    pub footprint: Footprint,
+    /// Opaque payload identity carried through the queue.
+    pub tag: u64,
+}
+
+/// Drives the real pending queue and the real reservation/receipt code on raw keys.
+pub struct SchedProbe {
+    engine: Engine,
+    tx: TxId,
+}
+
+impl std::fmt::Debug for SchedProbe {
+    fn fmt(&self, f: &mut std::fmt::Formatter<'_>) -> std::fmt::Result {
+        f.debug_struct("SchedProbe").finish_non_exhaustive()
+    }
+}
+
+fn to_pending(c: RawCandidate) -> PendingRewrite {
+    PendingRewrite {
+        rule_id: c.rule_id,
+        compact_rule: CompactRuleId(c.compact_rule),
+        scope_hash: c.scope_hash,
+        scope: c.scope,
+        footprint: c.footprint,
+        phase: RewritePhase::Matched,
+        origin: OpOrigin {
+            intent_id: c.tag,
+            rule_id: c.compact_rule,
+            match_ix: 0,
+            op_ix: 0,
+        },
+    }
+}
+
+fn from_pending(p: PendingRewrite) -> RawCandidate {
+    RawCandidate {
+        scope_hash: p.scope_hash,
+        rule_id: p.rule_id,
+        compact_rule: p.compact_rule.0,
+        scope: p.scope,
+        footprint: p.footprint,
+        tag: p.origin.intent_id,
+    }
+}
+
+impl SchedProbe {
+    /// Creates a probe over a fresh engine using the given scheduler kind.
+    #[must_use]
+    pub fn new(kind: SchedulerKind) -> Self {
+        let root = crate::ident::make_node_id("echo_verif/probe-root");
+        let mut store = GraphStore::default();
+        store.insert_node(
+            root,
+            crate::record::NodeRecord {
+                ty: crate::ident::make_type_id("echo_verif/probe"),
+            },
+        );
+        let mut engine = Engine::with_scheduler(store, root, kind);
+        let tx = engine.begin();
+        Self { engine, tx }
+    }
+
+    /// Enqueues a raw candidate into the pending queue (last-wins per key).
+    pub fn enqueue(&mut self, c: RawCandidate) {
+        let tx = self.tx;
+        self.engine.echo_verif_enqueue(tx, to_pending(c));
+    }
+
+    /// Drains the pending queue in canonical order.
+    pub fn drain(&mut self) -> Vec<RawCandidate> {
+        let tx = self.tx;
+        self.engine
+            .echo_verif_drain(tx)
+            .into_iter()
+            .map(from_pending)
+            .collect()
+    }
+
+    /// Runs the real reservation + receipt construction over `ordered` (already in plan order).
+    ///
+    /// Returns the receipt and the tags of the reserved (accepted) candidates in order.
+    ///
+    /// # Errors
+    /// Returns the engine error rendered as a string.
+    pub fn reserve(&mut self, ordered: Vec<RawCandidate>) -> Result<(TickReceipt, Vec<u64>), String> {
+        let tx = self.tx;
+        let drained = ordered.into_iter().map(to_pending).collect();
+        self.engine
+            .echo_verif_reserve(tx, drained)
+            .map_err(|e| format!("{e:?}"))
+    }
+}
